@@ -46,5 +46,31 @@ theorem vals_order {P : Nat} {hist : List ℚ} {s : Keltner} (k : Candle ℚ) (h
     have := h.sigma
     nlinarith
 
+/-- C05: with the configured average realising `f` on the sources so far, the step returns
+    `[source, f(sources) + σ·mean(last n true ranges), f(sources) − σ·mean(last n true ranges)]` -/
+theorem vals_spec {P : Nat} {f : List ℚ → ℚ} {srcs hist : List ℚ} {s : Keltner} (k : Candle ℚ) (h : Inv P hist s)
+    (hr : Realises f s.ma srcs) (hv : k.low ≤ k.high) :
+    let x := k.source s.cfg.source
+    let trs := hist ++ [k.trClose s.prev_close]
+    let atr := Spec.mean s.cfg.ma.length (lastN s.cfg.ma.length trs)
+    ∃ v s', s.vals k = .ok (v, s') ∧
+      v.map VExp.value = [x, atr * s.cfg.sigma + f (srcs ++ [x]), atr * (-s.cfg.sigma) + f (srcs ++ [x])] ∧
+      Inv P trs s' ∧ Realises f s'.ma (srcs ++ [x]) ∧ s'.prev_close = k.close ∧ s'.cfg = s.cfg := by
+  intro x trs atr
+  obtain ⟨m, hm, rm⟩ := hr.step x
+  obtain ⟨atr', a, hn, hinv, hatr⟩ := SMA.next_spec (k.trClose s.prev_close) h.pos h.sma
+  have htr : 0 ≤ k.trClose s.prev_close := tr_nonneg k _ hv
+  have hall : ∀ y ∈ hist ++ [k.trClose s.prev_close], 0 ≤ y := by
+    intro y hy
+    rcases List.mem_append.mp hy with hy | hy
+    · exact h.nonneg y hy
+    · simp at hy; rw [hy]; exact htr
+  refine ⟨[.exact x, .price (atr' * s.cfg.sigma + f (srcs ++ [x])) (maK s.ma + 2 * Keltner.vals.ratAbsI s.cfg.sigma),
+    .price (atr' * (-s.cfg.sigma) + f (srcs ++ [x])) (maK s.ma + 2 * Keltner.vals.ratAbsI s.cfg.sigma)],
+    { s with prev_close := k.close, ma := m, sma := a }, ?_, ?_, ⟨hinv, hall, h.sigma, h.pos⟩, rm, rfl, rfl⟩
+  · simp only [Keltner.vals, maNext, bind, Except.bind, x, hm, hn, pure, Except.pure]
+  · simp only [List.map_cons, List.map_nil, VExp.value, VExp.price, hatr]
+    rfl
+
 end Keltner
 end Yata.Ind
